@@ -356,19 +356,24 @@ def run(ctx):
         envelope_check(ctx, "linear-realistic", out, x, w, bias)
     # ---- aligned rows: activations that have the sign pattern of one weight row accumulate without cancellation, so the output is
     # large compared with the weights (and with the weight scale) although it is far inside the range of the output dtype
-    for _ in range(24 if not ctx.thorough else 240):
+    agrid = [(F_, K_, a_, w_) for F_ in ("f16", "bf16") for K_ in (256, 512) for a_ in ("float", "qint8", "qfloat8_e4m3fn") for w_ in ("qint8", "qfloat8", "qint4")]
+    for ai in range(len(agrid) + (8 if not ctx.thorough else 240)):
+        # every run: the whole grid dtype x K x activation kind x weight qtype, then seeded random cases
         F = rng.choice(["f16", "f16", "bf16", "f32"])
-        dt = fmts()[F][0]
         K = rng.choice([128, 256, 512])
+        forced = agrid[ai] if ai < len(agrid) else None
+        if forced:
+            F, K = forced[0], forced[1]
+        dt = fmts()[F][0]
         outF = rng.choice([1, 4, 9])
         wf = torch.randn(outF, K, generator=g) * 0.02
         sgn = torch.where(torch.rand(K, generator=g) < 0.5, -1.0, 1.0)
         wf[0] = sgn * 0.5 * (0.5 + 0.5 * torch.rand(K, generator=g))
-        wqn = rng.choice(["qint8", "qfloat8", "qint4"])
+        wqn = forced[3] if forced else rng.choice(["qint8", "qfloat8", "qint4"])
         w = q.quantize_weight(wf.to(dt), q.qtypes[wqn], 0)
         rows = rng.choice([1, 3])
         xf = (sgn * (2 + 6 * torch.rand(rows, K, generator=g))).to(dt)
-        akind = rng.choice(["float", "qint8", "qfloat8_e4m3fn"])
+        akind = forced[2] if forced else rng.choice(["float", "qint8", "qfloat8_e4m3fn"])
         if akind == "float":
             x = xf
         else:
